@@ -125,6 +125,8 @@ REG.classes.setdefault("LPSolver", [])
 REG.classes.setdefault("VarContainer", [])
 REG.inline.add("Model.variables@getter")
 REG.inline.add("Model.solver@getter")
+GETTER_KEYS = ["Reaction.reverse_id@getter", "Reaction.forward_variable@getter", "Reaction.reverse_variable@getter",
+               "VarContainer.__getitem__"]
 var_at = z3.Function("lp_var_registered", Ref, Id, Ref)       # (container, name) -> registered object, NULL if none
 lp_vars = z3.Function("lp_variables_of", Ref, Ref)            # solver -> its `variables` container
 REVID = z3.Function("reverse_id_of", Id, Id)                  # the reverse id belonging to an id (same symbol as c02_rename.REVID)
@@ -145,10 +147,21 @@ def revid_def(k):
 
 
 def _revid_axioms(E):
+    if not _verifying_getter(E):
+        return []
     return [revid_def(E.eng.heap_arr(E.s0, "_id")[E["self"].t])]
 
 
+def _verifying_getter(E):
+    """the axioms below are needed (and applied) only while one of the getter BODIES is verified; at call sites the post-conditions
+    say everything the callers use, and the callers' proofs see exactly the facts they saw when the getters were assumed"""
+    cur = getattr(E.eng, "cur_contract", None)
+    return cur is not None and cur.key in GETTER_KEYS
+
+
 def _in_step_axioms(E):
+    if not _verifying_getter(E):
+        return []
     r = E["self"].t
     m = model_of(E, E.s0, r)
     c = lp_vars(E.eng.heap_arr(E.s0, "_solver")[m])
@@ -162,13 +175,22 @@ REG.add(Contract(M, "Reaction.reverse_id@getter", "C04", [RXN],
                  note="PROVED (was assumed): the result is reverse_id_of(current id) = '_'.join((id, 'reverse', md5 prefix of the id))"))
 
 
+def _with_res(E, base, t):
+    """at a call site (the result IS the term t, built by the case's result builder) exactly the clause the assumed contract had"""
+    if isinstance(E.res, VRef) and E.res.t.eq(t):
+        return base
+    return z3.And(base, _res_is(E, t))
+
+
 def _res_is(E, t):
-    return E.res.t == t if isinstance(E.res, VRef) else z3.BoolVal(False)
+    if not isinstance(E.res, VRef):
+        return z3.BoolVal(False)
+    return TRUE() if E.res.t.eq(t) else E.res.t == t
 
 
 for _name, _fn in (("forward_variable", fwd), ("reverse_variable", rev)):
     c1 = Case("in_model", requires=lambda E: model_of(E, E.s0, E["self"].t) != NULL,
-              ensures=(lambda fn: lambda E: z3.And(vars_distinct(E["self"].t), _res_is(E, fn(E["self"].t))))(_fn))
+              ensures=(lambda fn: lambda E: _with_res(E, vars_distinct(E["self"].t), fn(E["self"].t)))(_fn))
     c1.result = _var_result(_fn)
     c2 = Case("detached", requires=lambda E: model_of(E, E.s0, E["self"].t) == NULL,
               ensures=lambda E: z3.BoolVal(isinstance(E.res, VNone)))
@@ -221,8 +243,6 @@ def _g_getitem(eng, st, obj, idx):
 
 
 GETTER_HOOKS = {"getattr": _g_getattr, "call_abstract": _g_call_abstract, "call_method": _g_call_method, "getitem": _g_getitem}
-GETTER_KEYS = ["Reaction.reverse_id@getter", "Reaction.forward_variable@getter", "Reaction.reverse_variable@getter",
-               "VarContainer.__getitem__"]
 
 
 # ---------------------------------------------------------------- Reaction._check_bounds (staticmethod)
